@@ -1,3 +1,112 @@
-//! Kani contract harnesses for action (included from /repo/keyberon/src/action.rs under cfg(kani)).
+//! Kani contract harnesses for keyberon/src/action.rs (property C09: chords v1 tables)
+//! (included from /repo/keyberon/src/action.rs under cfg(kani)).
 #![allow(unused_imports, dead_code)]
 use super::*;
+
+const CH_N: usize = 3;
+static CH_A: [Action<'static, core::convert::Infallible>; CH_N] =
+    [Action::KeyCode(KeyCode::A), Action::KeyCode(KeyCode::B), Action::KeyCode(KeyCode::C)];
+
+/// symbolic chord table with n <= CH_N entries over 128-bit masks
+fn any_chords() -> ([(ChordKeys, &'static Action<'static, core::convert::Infallible>); CH_N], usize) {
+    let arr = [(kani::any::<u128>(), &CH_A[0]), (kani::any::<u128>(), &CH_A[1]), (kani::any::<u128>(), &CH_A[2])];
+    let n: usize = kani::any();
+    kani::assume(n <= CH_N);
+    (arr, n)
+}
+
+/// get_chord: the action whose key set EQUALS the pressed set ("exactly the pressed key set"),
+/// none if no chord is defined for it.
+#[kani::proof]
+#[kani::unwind(5)]
+fn c09_b_get_chord() {
+    let (arr, n) = any_chords();
+    // parser guarantee: chord key sets are unique within a group
+    kani::assume(n < 2 || arr[0].0 != arr[1].0);
+    kani::assume(n < 3 || (arr[0].0 != arr[2].0 && arr[1].0 != arr[2].0));
+    let g = ChordsGroup { coords: &[], chords: &arr[..n], timeout: kani::any() };
+    let m: u128 = kani::any();
+    let r = g.get_chord(m);
+    let mut want: Option<usize> = None;
+    let mut i = 0;
+    while i < n {
+        if arr[i].0 == m {
+            want = Some(i);
+        }
+        i += 1;
+    }
+    match (r, want) {
+        (None, None) => {}
+        (Some(a), Some(i)) => assert!(core::ptr::eq(a, arr[i].1)),
+        _ => panic!("get_chord disagrees with the table"),
+    }
+    kani::cover!(n == CH_N && want == Some(2), "last entry of a full table matches");
+}
+
+/// get_chord_if_unambiguous: that action iff no other defined chord strictly contains the
+/// pressed set (then more keys could still complete a longer chord).
+#[kani::proof]
+#[kani::unwind(5)]
+fn c09_b_get_chord_if_unambiguous() {
+    let (arr, n) = any_chords();
+    kani::assume(n < 2 || arr[0].0 != arr[1].0);
+    kani::assume(n < 3 || (arr[0].0 != arr[2].0 && arr[1].0 != arr[2].0));
+    let g = ChordsGroup { coords: &[], chords: &arr[..n], timeout: kani::any() };
+    let m: u128 = kani::any();
+    let r = g.get_chord_if_unambiguous(m);
+    let mut exact: Option<usize> = None;
+    let mut superset = false;
+    let mut i = 0;
+    while i < n {
+        if arr[i].0 == m {
+            exact = Some(i);
+        } else if arr[i].0 & m == m {
+            superset = true;
+        }
+        i += 1;
+    }
+    match r {
+        None => assert!(exact.is_none() || superset),
+        Some(a) => {
+            assert!(!superset);
+            assert!(core::ptr::eq(a, arr[exact.unwrap()].1));
+        }
+    }
+    kani::cover!(n == CH_N && exact.is_some() && superset, "ambiguous");
+    kani::cover!(n == CH_N && r.is_some(), "unambiguous in a full table");
+}
+
+/// get_keys: the mask of the first table row for that coordinate
+#[kani::proof]
+#[kani::unwind(5)]
+fn c09_b_get_keys() {
+    let c0: (u8, u16) = (kani::any(), kani::any());
+    let c1: (u8, u16) = (kani::any(), kani::any());
+    let c2: (u8, u16) = (kani::any(), kani::any());
+    let coords = [(c0, kani::any::<u128>()), (c1, kani::any::<u128>()), (c2, kani::any::<u128>())];
+    let n: usize = kani::any();
+    kani::assume(n <= 3);
+    let g: ChordsGroup<'_, core::convert::Infallible> = ChordsGroup { coords: &coords[..n], chords: &[], timeout: 0 };
+    let c: (u8, u16) = (kani::any(), kani::any());
+    let r = g.get_keys(c);
+    let mut want = None;
+    let mut i = n;
+    while i > 0 {
+        i -= 1;
+        if coords[i].0 == c {
+            want = Some(coords[i].1);
+        }
+    }
+    assert!(r == want);
+}
+
+/// must-fail twin: claims a subset of a chord is never ambiguous
+#[kani::proof]
+#[kani::unwind(5)]
+fn c09_b_get_chord_if_unambiguous_neg() {
+    let (arr, n) = any_chords();
+    kani::assume(n == 2 && arr[0].0 != arr[1].0);
+    let g = ChordsGroup { coords: &[], chords: &arr[..n], timeout: 0 };
+    let r = g.get_chord_if_unambiguous(arr[0].0);
+    assert!(r.is_some());
+}
